@@ -373,11 +373,101 @@ def placements(tier):
 
 def shards(tier, seed):
     n = 64
-    return [(k, n, tier) for k in range(n)]
+    return [(k, n, tier) for k in range(n)] + [("typechange", 0, tier)]
+
+
+# ---- hooks that return a value of a *different type* (an object wrapping what they were given): the next stage sees that object ----
+class Boxed:
+    """what a wrapping hook returns; deliberately has `value` and `errors` attributes like many result / enum-like objects"""
+    errors = None
+
+    def __init__(self, kind, value):
+        self.kind = kind
+        self.value = value
+
+
+def describe(v):
+    if isinstance(v, Boxed):
+        return "%s(%s)" % (v.kind, describe(v.value))
+    if isinstance(v, dict):
+        return "{%s}" % ", ".join("%s: %s" % (k, describe(x)) for k, x in sorted(v.items()))
+    if isinstance(v, list):
+        return "[%s]" % ", ".join(describe(x) for x in v)
+    return str(v)
+
+
+class BoxDirective:
+    async def on_post_input_coercion(self, directive_args, next_directive, parent_node, value, ctx):
+        return Boxed("input", await next_directive(parent_node, value, ctx))
+
+    async def on_argument_execution(self, directive_args, next_directive, parent_node, argument_definition_node, argument_node, value, ctx):
+        return Boxed("arg", await next_directive(parent_node, argument_definition_node, argument_node, value, ctx))
+
+    async def on_field_execution(self, directive_args, next_resolver, parent, args, ctx, info):
+        harness.scenario_of(ctx).events.append(("field-hook-saw", describe(args)))
+        return await next_resolver(parent, args, ctx, info)
+
+
+TYPECHANGE_SDL = """
+directive @box on ARGUMENT_DEFINITION | INPUT_FIELD_DEFINITION | ENUM_VALUE | FIELD_DEFINITION
+enum Color { RED @box BLUE }
+input In { c: Color @box n: Int @box k: Int }
+type Query {
+  bare(c: Color @box): String @box
+  plain(c: Color): String
+  listed(cs: [Color] @box): String
+  nested(i: In @box): String
+  num(n: Int @box, m: Int): String
+}
+"""
+TYPECHANGE_REQUESTS = [
+    # (literal text, variable text, variables, field, expected argument description)
+    ("{ bare(c: RED) }", "query($c: Color) { bare(c: $c) }", {"c": "RED"}, "bare", "{c: arg(input(RED))}"),
+    ("{ bare(c: BLUE) }", "query($c: Color) { bare(c: $c) }", {"c": "BLUE"}, "bare", "{c: arg(BLUE)}"),
+    ("{ plain(c: RED) }", "query($c: Color) { plain(c: $c) }", {"c": "RED"}, "plain", "{c: input(RED)}"),
+    ("{ listed(cs: [RED, BLUE]) }", "query($c: [Color]) { listed(cs: $c) }", {"c": ["RED", "BLUE"]}, "listed", "{cs: arg([input(RED), BLUE])}"),
+    ("{ nested(i: {c: RED, n: 3, k: 4}) }", "query($i: In) { nested(i: $i) }", {"i": {"c": "RED", "n": 3, "k": 4}}, "nested",
+     "{i: arg({c: input(input(RED)), k: 4, n: input(3)})}"),
+    ("{ num(n: 5, m: 6) }", "query($n: Int) { num(n: $n, m: 6) }", {"n": 5}, "num", "{m: 6, n: arg(5)}"),
+]
+
+
+def run_typechange(out):
+    name = harness.fresh_name("c13box")
+    Directive("box", schema_name=name)(BoxDirective())
+    for f in ("bare", "plain", "listed", "nested", "num"):
+        def mk(f):
+            async def r(parent, args, ctx, info):
+                return describe(args)
+            return r
+        Resolver("Query." + f, schema_name=name)(mk(f))
+    eng = harness.run(create_engine(TYPECHANGE_SDL, schema_name=name))
+    for lit, var, variables, field, want in TYPECHANGE_REQUESTS:
+        for way, text, vs in (("literal", lit, None), ("variable", var, variables)):
+            for rnd in range(2):
+                scn = Scenario(root={})
+                resp = harness.execute(eng, text, scn, variables=vs)
+                out["counts"]["evaluations"] += 1
+                saw = [e[1] for e in scn.events if isinstance(e, tuple) and e[0] == "field-hook-saw"]
+                got = (resp.get("data") or {}).get(field)
+                if resp.get("errors") or got != want or (field == "bare" and saw != [want]):
+                    out["violations"].append({
+                        "signature": "stage-did-not-see-what-the-previous-hook-returned|%s|%s" % (field, way),
+                        "summary": "hooks returning wrapper objects: %s variables=%r -> resolver saw %r (field hook saw %r), expected %r; response %r"
+                                   % (text, vs, got, saw, want, resp),
+                        "replay": {"typechange": True}})
+                    break
+    out["samples"].append({"type_changing_hooks": [r[0] for r in TYPECHANGE_REQUESTS]})
+    harness.forget(name)
 
 
 def run_shard(item):
     k, n, tier = item
+    if k == "typechange":
+        out = {"counts": {"placements": 0, "evaluations": 0, "nontrivial": 0, "hooks_observed": 0}, "tables": {"by_size": {}}, "sets": {},
+               "samples": [], "violations": [], "machinery": []}
+        run_typechange(out)
+        return out
     out = {"counts": {"placements": 0, "evaluations": 0, "nontrivial": 0, "hooks_observed": 0}, "tables": {"by_size": {}}, "sets": {},
            "samples": [], "violations": [], "machinery": []}
     ps = [p for i, p in enumerate(placements(tier)) if i % n == k]
@@ -465,6 +555,10 @@ def finish(agg, tier):
 
 def replay(rec):
     r = rec["replay"]
+    if r.get("typechange"):
+        out = {"counts": {"evaluations": 0}, "violations": [], "samples": []}
+        run_typechange(out)
+        return out["violations"]
     p = tuple(r["placement"])
     eng, name = build(p)
     out = []
